@@ -118,6 +118,9 @@ func NewMultiEndpoint(b *MultiEndpointOptions) (MultiEndpoint, error) {
 	defer me.Unlock()
 	eMap := make(map[string]*endpoint)
 	for i, e := range b.Endpoints {
+		if _, dup := eMap[e]; dup {
+			continue
+		}
 		eMap[e] = me.newEndpoint(e, i)
 	}
 	me.endpoints = eMap
@@ -164,7 +167,12 @@ func (me *multiEndpoint) SetEndpoints(endpoints []string) error {
 		}
 	}
 	// Add new endpoints and update priority.
+	seen := make(map[string]struct{}, len(endpoints))
 	for i, e := range endpoints {
+		if _, dup := seen[e]; dup {
+			continue
+		}
+		seen[e] = struct{}{}
 		if _, ok := me.endpoints[e]; !ok {
 			me.endpoints[e] = me.newEndpoint(e, i)
 		} else {
